@@ -14,6 +14,10 @@ FUNCS = ["digestion._return_digested_sequences", "digestion.digest", "digestion.
          "ProFormaAnnotation.serialize", "proforma_parser.parse", "sequence_funcs.find_subsequence_indices", "mass_calc.mass"]
 
 
+def _g(glob) -> str:
+    return glob if isinstance(glob, str) else str(int(glob))
+
+
 def e1_conds(tier: str) -> List[Cond]:
     conds: List[Cond] = []
     t = 120 if tier == "quick" else 600
@@ -32,11 +36,32 @@ def e1_conds(tier: str) -> List[Cond]:
                     pre += [f"0 <= a0 < b0 <= {L}", "(s <= a0 or s >= b0) and (e <= a0 or e >= b0)"]
                 splits = [None] if (npos + nint < 2 or L < 3) else list(range(L))
                 for sp in splits:
-                    conds.append(Cond(oid=f"return-types/{seq}/mods={npos}/intervals={nint}/glob={int(glob)}" + (f"/s={sp}" if sp is not None else ""),
+                    conds.append(Cond(oid=f"return-types/{seq}/mods={npos}/intervals={nint}/glob={_g(glob)}" + (f"/s={sp}" if sp is not None else ""),
                                       clause="all five return types describe the slice of the span; string re-parses to the annotation; found again at offset s",
                                       module="vf.h.c07", func="o_return_types", shape=dict(seq=seq, npos=npos, glob=glob, nint=nint), sym=sym,
                                       pre=pre + ([f"s == {sp}"] if sp is not None else []), timeout=t, functions=FUNCS,
                                       bounds=f"len {L}; span, modification positions, interval bounds symbolic (interval not straddling the span ends)"))
+        # exactly one global / terminal kind and nothing else (no residue modification): the "unmodified protein" shortcuts of
+        # digest()/slice() must not take such a protein for a bare one
+        from ..h.c11 import GLOB_KINDS
+        if seq in seqs[:2]:
+            for kind in GLOB_KINDS:
+                conds.append(Cond(oid=f"return-types/{seq}/mods=0/intervals=0/glob={kind}",
+                                  clause="all five return types describe the slice of the span; string re-parses to the annotation; found again at offset s",
+                                  module="vf.h.c07", func="o_return_types", shape=dict(seq=seq, npos=0, glob=kind, nint=0), sym=[("s", "int"), ("e", "int")],
+                                  pre=[f"0 <= s < e <= {L}"], timeout=t, functions=FUNCS, bounds=f"len {L}; span symbolic; the protein's only annotation is its {kind}"))
+                for rt in ("str", "annotation"):
+                    conds.append(Cond(oid=f"digest/{seq}/sites=1/{rt}/mods=0/glob={kind}",
+                                      clause="digest(): each returned peptide is the slice of its span, in span order, for every return type",
+                                      module="vf.h.c07", func="o_digest", shape=dict(seq=seq, sites=(1,), npos=0, glob=kind, rt=rt),
+                                      sym=[("mc", "int"), ("semi", "bool")], pre=["0 <= mc <= 3"], timeout=t, functions=FUNCS,
+                                      bounds=f"len {L}; one cleavage site; the protein's only annotation is its {kind}"))
+            for wi, which in enumerate(("left", "right", "semi", "non")):
+                for kind in (GLOB_KINDS if tier == "thorough" else GLOB_KINDS[wi::4]):
+                    conds.append(Cond(oid=f"generators/{seq}/{which}/glob={kind}", clause="semi-/non-enzymatic generators: peptides are slices of their spans",
+                                      module="vf.h.c07", func="o_generators", shape=dict(seq=seq, npos=0, glob=kind, which=which),
+                                      sym=[("mn", "int"), ("mx", "int")], pre=["1 <= mn", "1 <= mx"], timeout=t, functions=FUNCS,
+                                      bounds=f"len {L}; min_len, max_len unbounded; the protein's only annotation is its {kind}"))
         # digest end to end with the site stub
         layouts = [tuple(c) for r in range(0, L) for c in itertools.combinations(range(1, L), r)]
         for sites in layouts:
@@ -46,7 +71,7 @@ def e1_conds(tier: str) -> List[Cond]:
                 for (npos, glob) in ((1, True), (2, False)):
                     if npos > L or (tier == "quick" and L >= 3 and npos == 2):
                         continue
-                    conds.append(Cond(oid=f"digest/{seq}/sites={','.join(map(str, sites)) or '-'}/{rt}/mods={npos}/glob={int(glob)}",
+                    conds.append(Cond(oid=f"digest/{seq}/sites={','.join(map(str, sites)) or '-'}/{rt}/mods={npos}/glob={_g(glob)}",
                                       clause="digest(): each returned peptide is the slice of its span, in span order, for every return type",
                                       module="vf.h.c07", func="o_digest", shape=dict(seq=seq, sites=sites, npos=npos, glob=glob, rt=rt),
                                       sym=[("mc", "int"), ("semi", "bool")] + [(f"p{i}", "int") for i in range(npos)],
@@ -69,7 +94,8 @@ def e2_scenarios(tier: str):
         n = len(seq)
         for r in range(0, n):
             for cuts in itertools.combinations(range(1, n), r):
-                for feat in ([], ["res"], ["nterm", "cterm"], ["res", "staticAA"], ["res", "nterm", "cterm", "staticAA", "label"], ["interval"]):
+                for feat in ([], ["res"], ["nterm", "cterm"], ["res", "staticAA"], ["res", "nterm", "cterm", "staticAA", "label"], ["interval"],
+                             ["staticAA"], ["label"], ["nterm"], ["cterm"]):     # the last four: that annotation alone
                     if "interval" in feat and (n < 3):
                         continue
                     for mono in (True, False):
